@@ -393,6 +393,9 @@ impl Interp {
                                 OpOutcome::CasFailed
                             }
                         }
+                        // "not leader" is a rejection whichever way it is spelled: the client is told to redirect
+                        // and retry, so the command must never be applied (C14)
+                        (ErrorCode::NotLeader, _) => OpOutcome::Rejected("FailedPrecondition:Not leader (ErrorCode::NotLeader)".into()),
                         (code, _) => OpOutcome::Indeterminate(format!("{code:?}")),
                     },
                     Ok(Err(status)) => match status.code() {
